@@ -73,7 +73,9 @@ def targeted(rng):
         return p
     z, nz = R.r_float(R.f_bits(0.0)), R.r_float(R.f_bits(-0.0))
     one_i, one_f, one_b = R.r_int(1), R.r_float(R.f_bits(1.0)), R.r_bool(True)
-    return [f([z, one_f], 1) + f([nz, one_f], 1), f([nz], 1) + f([z], 1), f([one_i], 1) + f([one_f], 1) + f([one_i], 1),
+    nested_hc = ([{'op': 'hc_enter'}, {'op': 'hc_enter'}] + f([one_i], 1, name='UPPER') + [{'op': 'hc_exit'}] + f([one_f], 1, name='UPPER-2') + [{'op': 'hc_exit'}]
+                 + f([one_i], 1, name='lower case name'))
+    return [nested_hc, f([z, one_f], 1) + f([nz, one_f], 1), f([nz], 1) + f([z], 1), f([one_i], 1) + f([one_f], 1) + f([one_i], 1),
             f([one_f], 3) + f([one_i], 7, name='P'), f([one_i], 1, name='Q') + f([one_i], 2, name='Q'),
             f([one_i], 1, extra_first='frames') , f([one_i], 1) + f([one_i], 1, extra_first='channels')]
 
@@ -153,11 +155,39 @@ def run_rewrites(ctx):
             ctx.violation('rewritten-file-differs-from-fresh-process', {**det, 'second_write': o2[0] if o2[0] == 'ok' else o2,
                                                                        'fresh_write': fr['outs'][-1], 'first_difference_at': pos,
                                                                        'in_history': a[max(0, pos - 16):pos + 32].hex(), 'fresh_process': b[max(0, pos - 16):pos + 32].hex()})
-    # the cast dtype of a channel changed through its public setter between two writes: the second file is the file of a fresh
-    # specification created with that cast (no encoded attribute bytes, no representation code kept from the first write)
+    # data handed to write() as ONE structured array / a dict of big-endian arrays, and used for two writes of the same DLISFile and for
+    # an equal specification built afterwards: all three files identical (nothing is done to the caller's arrays that a later write sees)
     import numpy as np
     import impl
     from dliswriter import DLISFile
+
+    def src_spec():
+        df0 = DLISFile()
+        lf0 = df0.add_logical_file()
+        lf0.add_origin('O', file_set_number=1, creation_time='2020/01/01 00:00:00')
+        a0 = lf0.add_channel('DEPTH')
+        b0 = lf0.add_channel('IMG')
+        lf0.add_frame('F', channels=[a0, b0])
+        return df0
+    for order in ('<', '>'):
+        for kind in ('struct', 'dict'):
+            d = np.arange(6, dtype=np.dtype(order + 'f8')) * 0.5
+            img = (np.arange(18).reshape(6, 3) * 1000).astype(np.dtype(order + 'i4'))
+            if kind == 'struct':
+                data = np.zeros(6, dtype=np.dtype([('DEPTH', d.dtype), ('IMG', img.dtype, (3,))]))
+                data['DEPTH'], data['IMG'] = d, img
+            else:
+                data = {'DEPTH': d, 'IMG': img}
+            dfh = src_spec()
+            outs3 = [impl.outcome(lambda: impl.write_real(dfh, data=data)), impl.outcome(lambda: impl.write_real(dfh, data=data)),
+                     impl.outcome(lambda: impl.write_real(src_spec(), data=data))]
+            ctx.count('K-rewrite', key=('same-source-twice', order, kind))
+            if any(o[0] != 'ok' for o in outs3) or len({o[1]['file'] for o in outs3}) != 1:
+                ctx.violation('writes-from-the-same-source-object-differ', {'byte_order': order, 'kind': kind,
+                                                                           'outcomes': [o[0] for o in outs3],
+                                                                           'distinct_files': len({o[1]['file'] for o in outs3 if o[0] == 'ok'})})
+    # the cast dtype of a channel changed through its public setter between two writes: the second file is the file of a fresh
+    # specification created with that cast (no encoded attribute bytes, no representation code kept from the first write)
 
     def cast_spec(cast, width):
         df0 = DLISFile()
